@@ -558,6 +558,9 @@ func checkC20EntropyInner(c c20EntropyCase) error {
 					return finding("signer-error-lost", "%s: %v", desc, err)
 				}
 			}
+			if c.Signer == "stub-panics" {
+				return finding("signer-error-lost", "%s: the key panicked, the panic was swallowed and the helper reports only: %v", desc, err)
+			}
 			if real && c.Limit >= 1<<20 && errors.Is(err, cose.ErrEmptySignature) {
 				// nothing failed visibly, yet no signature was made: the failure of the key was swallowed
 				return finding("signer-error-lost", "%s: a built-in signer with a working key and entropy source produced no signature and reported no error of its own (the helper says: %v)", desc, err)
@@ -602,6 +605,9 @@ func checkC20EntropyInner(c c20EntropyCase) error {
 			break
 		}
 		if !real {
+			if c.Signer != "stub-empty" {
+				return finding("signer-error-lost", "%s: SignMessage.Sign returns nil although the key of the second signer failed", desc)
+			}
 			if eerr == nil {
 				return finding("encodes-half-signed", "%s: Sign succeeded with a failing key and the message is encodable: %x", desc, b)
 			}
